@@ -22,7 +22,10 @@ use std::sync::{Arc, OnceLock};
 use std::time::Duration;
 use thiserror::Error;
 use tokio::io::AsyncWriteExt;
+#[cfg(not(penguin_rs_verif))]
 use tokio::net::{TcpStream, UdpSocket};
+#[cfg(penguin_rs_verif)]
+use penguin_simnet::{TcpStream, UdpSocket};
 use tokio::sync::{mpsc, oneshot};
 use tokio::task::JoinSet;
 use tokio::time;
@@ -142,7 +145,15 @@ impl HandlerResources {
             *client_id
         } else {
             // The client doesn't exist, add it to the maps
+            #[cfg(not(penguin_rs_verif))]
             let client_id = client_id_map.next_available_key(&mut rand::rng());
+            #[cfg(penguin_rs_verif)]
+            let client_id = {
+                use rand::SeedableRng;
+                client_id_map.next_available_key(&mut rand::rngs::SmallRng::seed_from_u64(
+                    penguin_mux::verif_hooks::next_seed(),
+                ))
+            };
             client_id_map.insert(
                 client_id,
                 ClientIdMapEntry::new(addr, our_addr, socket, socks5),
